@@ -6,8 +6,11 @@
     cleans the channel's operations up on an error; the fired source suspends itself and runs the handler;
     `_dispatch_stream_cleanup_operations` (stop of a channel) removes that channel's operations and suspends the source when
     nothing is left.
-    Two repairs are part of the model (`fixed := true`) and their absence is kept for the witnesses (`fixed := false`): the source
-    is armed only when it is not running (F32), and the error path asks for the handler again when operations remain (F33). -/
+    Three repairs are part of the model (`fixed := true`) and their absence is kept for the witnesses: the source is armed only
+    when it is not running (F32) and the error path asks for the handler again when operations remain (F33) - both absent with
+    `fixed := false` -, and a handler pass that leaves the list empty suspends a source that is still armed (F35; absent in
+    `step35`, which has the first two repairs only). The descriptor's teardown (`_dispatch_stream_dispose`) cancels and resumes
+    the source: it must find it suspended. -/
 namespace StreamP
 
 structure St where
@@ -16,6 +19,7 @@ structure St where
   running : Bool := false   -- stream->source_running
   susp : Nat := 1           -- suspension count of the readiness source (created suspended; 0 = armed)
   trapped : Bool := false   -- dispatch_resume of a source that is not suspended: the library traps
+  disposed : Bool := false  -- the descriptor entry has been torn down
 deriving DecidableEq, Repr
 
 inductive Ev
@@ -26,20 +30,30 @@ inductive Ev
   | passErr (k : Nat)        -- the picked operation fails (its channel was stopped): k + 1 operations of that channel are removed
   | fire                     -- the readiness source fires: it suspends itself and the handler runs
   | cleanup (k : Nat)        -- a channel is stopped: k of its operations are removed
+  | dispose                  -- teardown of the descriptor entry: the source is cancelled and resumed
 deriving DecidableEq, Repr
 
-/-- arm the source (`dispatch_resume`) -/
-def arm (s : St) : St := if s.susp = 0 then { s with trapped := true } else { s with running := true, susp := s.susp - 1 }
+/-- `dispatch_resume(source)` -/
+def resume (s : St) : St := if s.susp = 0 then { s with trapped := true } else { s with susp := s.susp - 1 }
+
+/-- arm the source -/
+def arm (s : St) : St := resume { s with running := true }
 
 /-- `if (stream->source_running && !avail) { dispatch_suspend(source); source_running = false; }` -/
 def quiesce (s : St) : St := if s.running ∧ s.ops = 0 then { s with running := false, susp := s.susp + 1 } else s
 
-def step (fixed : Bool) (s : St) : Ev → Option St
+/-- `fixed`: F32 and F33 repaired; `q35`: F35 repaired -/
+def stepG (fixed q35 : Bool) (s : St) (e : Ev) : Option St :=
+  if s.disposed then none else
+  match e with
   | .enqueue => some { s with ops := s.ops + 1, pending := if s.ops = 0 then s.pending + 1 else s.pending }
-  | .passEmpty => if s.pending = 0 ∨ s.ops ≠ 0 then none else some { s with pending := s.pending - 1 }
+  | .passEmpty => if s.pending = 0 ∨ s.ops ≠ 0 then none else
+      let s1 := { s with pending := s.pending - 1 }
+      some (if q35 then quiesce s1 else s1)
   | .passComplete =>
       if s.pending = 0 ∨ s.ops = 0 then none else
-        some { s with ops := s.ops - 1, pending := if s.ops - 1 = 0 then s.pending - 1 else s.pending }     -- (−1 for this pass, +1 for the next)
+        let s1 := { s with ops := s.ops - 1, pending := if s.ops - 1 = 0 then s.pending - 1 else s.pending }     -- (−1 for this pass, +1 for the next)
+        some (if q35 then quiesce s1 else s1)
   | .passWait =>
       if s.pending = 0 ∨ s.ops = 0 then none else
         let s1 := { s with pending := s.pending - 1 }
@@ -50,147 +64,202 @@ def step (fixed : Bool) (s : St) : Ev → Option St
         some (if fixed ∧ s1.ops ≠ 0 ∧ ¬ s1.running then { s1 with pending := s1.pending + 1 } else s1)
   | .fire => if s.running ∧ s.susp = 0 then some { s with running := false, susp := 1, pending := s.pending + 1 } else none
   | .cleanup k => if s.ops < k then none else some (quiesce { s with ops := s.ops - k })
+  | .dispose => if s.ops ≠ 0 ∨ s.pending ≠ 0 then none else some { resume s with disposed := true }
 
-def run (fixed : Bool) (s : St) : List Ev → Option St
+/-- the repaired library (`fixed := true`) and the library as found (`false`) -/
+def step (fixed : Bool) : St → Ev → Option St := stepG fixed fixed
+/-- F32 and F33 repaired, F35 not -/
+def step35 : St → Ev → Option St := stepG true false
+
+def runG (f : St → Ev → Option St) (s : St) : List Ev → Option St
   | [] => some s
-  | e :: es => match step fixed s e with | none => none | some s' => run fixed s' es
+  | e :: es => match f s e with | none => none | some s' => runG f s' es
 
-inductive Reachable (fixed : Bool) : St → Prop
-  | init : Reachable fixed {}
-  | step {s s'} (e : Ev) : Reachable fixed s → step fixed s e = some s' → Reachable fixed s'
+def run (fixed : Bool) : St → List Ev → Option St := runG (step fixed)
 
-/-- the source is suspended exactly while it is not running, nothing has trapped, and operations are never left without either a
-    pending handler request or an armed source -/
+inductive ReachableG (f : St → Ev → Option St) : St → Prop
+  | init : ReachableG f {}
+  | step {s s'} (e : Ev) : ReachableG f s → f s e = some s' → ReachableG f s'
+
+abbrev Reachable (fixed : Bool) := ReachableG (step fixed)
+
+/-- while the entry lives: the source is suspended exactly while it is not running, it is not running while the list is empty,
+    and operations are never left without either a pending handler request or an armed source; nothing ever traps -/
 structure Inv (s : St) : Prop where
-  susp : s.susp = if s.running then 0 else 1
   ok : s.trapped = false
-  live : s.ops ≠ 0 → (s.pending ≠ 0 ∨ s.running = true)
+  susp : s.disposed = false → s.susp = if s.running then 0 else 1
+  idle : s.disposed = false → s.ops = 0 → s.running = false
+  live : s.disposed = false → s.ops ≠ 0 → (s.pending ≠ 0 ∨ s.running = true)
 
-theorem quiesce_inv (s : St) (h1 : s.susp = if s.running then 0 else 1) (h2 : s.trapped = false) :
-    (quiesce s).susp = (if (quiesce s).running then 0 else 1) ∧ (quiesce s).trapped = false ∧ (quiesce s).ops = s.ops ∧
-    (quiesce s).pending = s.pending ∧ ((quiesce s).running = true → s.running = true) ∧ (s.ops ≠ 0 → (quiesce s).running = s.running) := by
+theorem quiesce_spec (s : St) (h1 : s.susp = if s.running then 0 else 1) :
+    (quiesce s).susp = (if (quiesce s).running then 0 else 1) ∧ (quiesce s).trapped = s.trapped ∧ (quiesce s).ops = s.ops ∧
+    (quiesce s).pending = s.pending ∧ (quiesce s).disposed = s.disposed ∧ (s.ops = 0 → (quiesce s).running = false) ∧
+    (s.ops ≠ 0 → (quiesce s).running = s.running) := by
   unfold quiesce
   by_cases h : s.running ∧ s.ops = 0
   · rw [if_pos h]; obtain ⟨hr, ho⟩ := h
-    refine ⟨?_, h2, rfl, rfl, ?_, ?_⟩
-    · simp only [hr, if_true] at h1; simp [h1]
-    · intro h'; cases h'
-    · intro hn; exact absurd ho hn
-  · rw [if_neg h]; exact ⟨h1, h2, rfl, rfl, id, fun _ => rfl⟩
+    refine ⟨?_, rfl, rfl, rfl, rfl, fun _ => rfl, fun hn => absurd ho hn⟩
+    simp only [hr, if_true] at h1; simp [h1]
+  · rw [if_neg h]
+    refine ⟨h1, rfl, rfl, rfl, rfl, ?_, fun _ => rfl⟩
+    intro ho
+    cases hr : s.running
+    · rfl
+    · exact absurd ⟨hr, ho⟩ h
 
 theorem step_inv {s s' : St} {e : Ev} (hi : Inv s) (hs : step true s e = some s') : Inv s' := by
-  obtain ⟨hsu, hok, hl⟩ := hi
-  cases e with
-  | enqueue =>
-    simp only [step] at hs; cases hs
-    refine ⟨hsu, hok, ?_⟩
-    intro _
-    by_cases h0 : s.ops = 0
-    · left; simp [h0]
-    · have := hl h0
-      rcases this with h | h
-      · left; simp [h0]; exact h
-      · right; exact h
-  | passEmpty =>
-    simp only [step] at hs
-    by_cases h : s.pending = 0 ∨ s.ops ≠ 0
-    · rw [if_pos h] at hs; cases hs
-    · rw [if_neg h] at hs; cases hs
-      have ho : s.ops = 0 := by
-        by_cases h0 : s.ops = 0
-        · exact h0
-        · exact absurd (Or.inr h0) h
-      exact ⟨hsu, hok, fun hn => absurd ho hn⟩
-  | passComplete =>
-    simp only [step] at hs
-    by_cases h : s.pending = 0 ∨ s.ops = 0
-    · rw [if_pos h] at hs; cases hs
-    · rw [if_neg h] at hs; cases hs
-      have hp : s.pending ≠ 0 := fun e => h (Or.inl e)
-      refine ⟨hsu, hok, ?_⟩
-      intro hn
-      left
-      show (if s.ops - 1 = 0 then s.pending - 1 else s.pending) ≠ 0
-      rw [if_neg hn]; exact hp
-  | passWait =>
-    simp only [step] at hs
-    by_cases h : s.pending = 0 ∨ s.ops = 0
-    · rw [if_pos h] at hs; cases hs
-    · rw [if_neg h] at hs
-      have ho : s.ops ≠ 0 := fun e => h (Or.inr e)
-      by_cases hr : s.running = true
-      · have : (True ∧ s.running = true) := ⟨trivial, hr⟩
-        rw [if_pos this] at hs; cases hs
-        exact ⟨hsu, hok, fun _ => Or.inr hr⟩
-      · have hr' : s.running = false := by cases hrr : s.running <;> simp_all
-        have : ¬ (True ∧ s.running = true) := by
-          intro ⟨_, h2⟩; exact hr h2
-        rw [if_neg this] at hs; cases hs
-        have h1 : s.susp = 1 := by rw [hsu, hr']; rfl
-        unfold arm
-        have hne : ¬ (({ s with pending := s.pending - 1 } : St).susp = 0) := by show ¬ s.susp = 0; omega
-        rw [if_neg hne]
-        refine ⟨?_, hok, fun _ => Or.inr rfl⟩
-        show s.susp - 1 = if true = true then 0 else 1
-        simp [h1]
-  | passErr k =>
-    simp only [step] at hs
-    by_cases h : s.pending = 0 ∨ s.ops < k + 1
-    · rw [if_pos h] at hs; cases hs
-    · rw [if_neg h] at hs
-      obtain ⟨q1, q2, q3, q4, q5, q6⟩ := quiesce_inv { s with pending := s.pending - 1, ops := s.ops - (k + 1) } hsu hok
-      by_cases hc : (True ∧ (quiesce { s with pending := s.pending - 1, ops := s.ops - (k + 1) }).ops ≠ 0 ∧
-          ¬ (quiesce { s with pending := s.pending - 1, ops := s.ops - (k + 1) }).running = true)
-      · rw [if_pos hc] at hs; cases hs
-        exact ⟨q1, q2, fun _ => Or.inl (by show _ + 1 ≠ 0; omega)⟩
-      · rw [if_neg hc] at hs; cases hs
-        refine ⟨q1, q2, ?_⟩
-        intro hn
-        by_cases hr : (quiesce { s with pending := s.pending - 1, ops := s.ops - (k + 1) }).running = true
-        · exact Or.inr hr
-        · exact absurd ⟨trivial, hn, hr⟩ hc
-  | fire =>
-    simp only [step] at hs
-    by_cases h : s.running ∧ s.susp = 0
-    · rw [if_pos h] at hs; cases hs
-      exact ⟨rfl, hok, fun _ => Or.inl (by show s.pending + 1 ≠ 0; omega)⟩
-    · rw [if_neg h] at hs; cases hs
-  | cleanup k =>
-    simp only [step] at hs
-    by_cases h : s.ops < k
-    · rw [if_pos h] at hs; cases hs
-    · rw [if_neg h] at hs; cases hs
-      obtain ⟨q1, q2, q3, q4, q5, q6⟩ := quiesce_inv { s with ops := s.ops - k } hsu hok
-      refine ⟨q1, q2, ?_⟩
-      intro hn
-      rw [q3] at hn
-      have hn' : ({ s with ops := s.ops - k } : St).ops ≠ 0 := hn
-      have hso : s.ops ≠ 0 := by
-        intro e; apply hn'; show s.ops - k = 0; omega
-      rcases hl hso with hp | hr
-      · left; rw [q4]; exact hp
-      · right; rw [q6 hn']; exact hr
+  obtain ⟨hok, hsu, hid, hl⟩ := hi
+  unfold step stepG at hs
+  by_cases hd : s.disposed = true
+  · rw [if_pos hd] at hs; cases hs
+  · rw [if_neg hd] at hs
+    have hd' : s.disposed = false := by cases h : s.disposed <;> simp_all
+    have hsu := hsu hd'; have hid := hid hd'; have hl := hl hd'
+    cases e with
+    | enqueue =>
+      simp only at hs; cases hs
+      refine ⟨hok, fun _ => hsu, fun _ h => by simp at h, ?_⟩
+      intro _ _
+      by_cases h0 : s.ops = 0
+      · left; simp [h0]
+      · rcases hl h0 with h | h
+        · left; simp [h0]; exact h
+        · right; exact h
+    | passEmpty =>
+      simp only at hs
+      by_cases h : s.pending = 0 ∨ s.ops ≠ 0
+      · rw [if_pos h] at hs; cases hs
+      · rw [if_neg h] at hs
+        have ho : s.ops = 0 := by
+          by_cases h0 : s.ops = 0
+          · exact h0
+          · exact absurd (Or.inr h0) h
+        simp only [if_true] at hs; cases hs
+        obtain ⟨q1, q2, q3, q4, q5, q6, q7⟩ := quiesce_spec { s with pending := s.pending - 1 } hsu
+        refine ⟨by rw [q2]; exact hok, fun _ => q1, fun _ _ => q6 ho, ?_⟩
+        intro _ hn; rw [q3] at hn; exact absurd ho hn
+    | passComplete =>
+      simp only at hs
+      by_cases h : s.pending = 0 ∨ s.ops = 0
+      · rw [if_pos h] at hs; cases hs
+      · rw [if_neg h] at hs
+        have hp : s.pending ≠ 0 := fun e => h (Or.inl e)
+        simp only [if_true] at hs; cases hs
+        obtain ⟨q1, q2, q3, q4, q5, q6, q7⟩ := quiesce_spec { s with ops := s.ops - 1, pending := if s.ops - 1 = 0 then s.pending - 1 else s.pending } hsu
+        refine ⟨by rw [q2]; exact hok, fun _ => q1, fun _ ho => q6 (by rw [q3] at ho; exact ho), ?_⟩
+        intro _ hn
+        rw [q3] at hn
+        have hn' : s.ops - 1 ≠ 0 := hn
+        left; rw [q4]
+        show (if s.ops - 1 = 0 then s.pending - 1 else s.pending) ≠ 0
+        rw [if_neg hn']; exact hp
+    | passWait =>
+      simp only at hs
+      by_cases h : s.pending = 0 ∨ s.ops = 0
+      · rw [if_pos h] at hs; cases hs
+      · rw [if_neg h] at hs
+        have ho : s.ops ≠ 0 := fun e => h (Or.inr e)
+        by_cases hr : s.running = true
+        · have : (True ∧ s.running = true) := ⟨trivial, hr⟩
+          rw [if_pos this] at hs; cases hs
+          exact ⟨hok, fun _ => hsu, fun _ h0 => absurd h0 ho, fun _ _ => Or.inr hr⟩
+        · have hr' : s.running = false := by cases hrr : s.running <;> simp_all
+          have : ¬ (True ∧ s.running = true) := by
+            intro ⟨_, h2⟩; exact hr h2
+          rw [if_neg this] at hs; cases hs
+          have h1 : s.susp = 1 := by rw [hsu, hr']; rfl
+          unfold arm resume
+          have hne : ¬ (({ s with pending := s.pending - 1, running := true } : St).susp = 0) := by show ¬ s.susp = 0; omega
+          rw [if_neg hne]
+          refine ⟨hok, fun _ => ?_, fun _ h0 => absurd h0 ho, fun _ _ => Or.inr rfl⟩
+          show s.susp - 1 = if true = true then 0 else 1
+          simp [h1]
+    | passErr k =>
+      simp only at hs
+      by_cases h : s.pending = 0 ∨ s.ops < k + 1
+      · rw [if_pos h] at hs; cases hs
+      · rw [if_neg h] at hs
+        obtain ⟨q1, q2, q3, q4, q5, q6, q7⟩ := quiesce_spec { s with pending := s.pending - 1, ops := s.ops - (k + 1) } hsu
+        by_cases hc : (True ∧ (quiesce { s with pending := s.pending - 1, ops := s.ops - (k + 1) }).ops ≠ 0 ∧
+            ¬ (quiesce { s with pending := s.pending - 1, ops := s.ops - (k + 1) }).running = true)
+        · rw [if_pos hc] at hs; cases hs
+          refine ⟨by show (quiesce _).trapped = false; rw [q2]; exact hok, fun _ => q1, ?_, fun _ _ => Or.inl (by show _ + 1 ≠ 0; omega)⟩
+          intro _ h0; exact absurd h0 hc.2.1
+        · rw [if_neg hc] at hs; cases hs
+          refine ⟨by rw [q2]; exact hok, fun _ => q1, fun _ h0 => q6 (by rw [q3] at h0; exact h0), ?_⟩
+          intro _ hn
+          by_cases hr : (quiesce { s with pending := s.pending - 1, ops := s.ops - (k + 1) }).running = true
+          · exact Or.inr hr
+          · exact absurd ⟨trivial, hn, hr⟩ hc
+    | fire =>
+      simp only at hs
+      by_cases h : s.running ∧ s.susp = 0
+      · rw [if_pos h] at hs; cases hs
+        exact ⟨hok, fun _ => rfl, fun _ _ => rfl, fun _ _ => Or.inl (by show s.pending + 1 ≠ 0; omega)⟩
+      · rw [if_neg h] at hs; cases hs
+    | cleanup k =>
+      simp only at hs
+      by_cases h : s.ops < k
+      · rw [if_pos h] at hs; cases hs
+      · rw [if_neg h] at hs; cases hs
+        obtain ⟨q1, q2, q3, q4, q5, q6, q7⟩ := quiesce_spec { s with ops := s.ops - k } hsu
+        refine ⟨by rw [q2]; exact hok, fun _ => q1, fun _ h0 => q6 (by rw [q3] at h0; exact h0), ?_⟩
+        intro _ hn
+        rw [q3] at hn
+        have hn' : ({ s with ops := s.ops - k } : St).ops ≠ 0 := hn
+        have hso : s.ops ≠ 0 := by
+          intro e; apply hn'; show s.ops - k = 0; omega
+        rcases hl hso with hp | hr
+        · left; rw [q4]; exact hp
+        · right; rw [q7 hn']; exact hr
+    | dispose =>
+      simp only at hs
+      by_cases h : s.ops ≠ 0 ∨ s.pending ≠ 0
+      · rw [if_pos h] at hs; cases hs
+      · rw [if_neg h] at hs; cases hs
+        have ho : s.ops = 0 := by
+          by_cases h0 : s.ops = 0
+          · exact h0
+          · exact absurd (Or.inl h0) h
+        have hr : s.running = false := hid ho
+        have h1 : s.susp = 1 := by rw [hsu, hr]; rfl
+        have hne : ¬ s.susp = 0 := by omega
+        have hdt : ({ resume s with disposed := true } : St).disposed = true := rfl
+        refine ⟨?_, ?_, ?_, ?_⟩
+        · show (resume s).trapped = false
+          unfold resume; rw [if_neg hne]; exact hok
+        · intro hh; rw [hdt] at hh; cases hh
+        · intro hh; rw [hdt] at hh; cases hh
+        · intro hh; rw [hdt] at hh; cases hh
 
 theorem inv_reachable {s : St} (h : Reachable true s) : Inv s := by
   induction h with
-  | init => exact ⟨rfl, rfl, fun h => absurd rfl h⟩
+  | init => exact ⟨rfl, fun _ => rfl, fun _ _ => rfl, fun _ h => absurd rfl h⟩
   | step e _ hs ih => exact step_inv ih hs
 
-/-- **the readiness source is armed exactly while `source_running`, and `dispatch_resume` never meets a source that is not suspended**
-    - for every history of enqueues, handler passes, source events and stops -/
-theorem source_consistent {s : St} (h : Reachable true s) : s.trapped = false ∧ s.susp = (if s.running then 0 else 1) :=
+/-- **the readiness source is armed exactly while `source_running`, and no `dispatch_resume` of it - by the handler or by the teardown -
+    ever meets a source that is not suspended**, for every history of enqueues, handler passes, source events, stops and the teardown -/
+theorem source_consistent {s : St} (h : Reachable true s) :
+    s.trapped = false ∧ (s.disposed = false → s.susp = (if s.running then 0 else 1)) :=
   ⟨(inv_reachable h).ok, (inv_reachable h).susp⟩
 
 /-- **no operation is left behind**: while operations are on the list a handler request is queued or the source is armed -/
-theorem no_stranded_operation {s : St} (h : Reachable true s) (ho : s.ops ≠ 0) : s.pending ≠ 0 ∨ s.running = true :=
-  (inv_reachable h).live ho
+theorem no_stranded_operation {s : St} (h : Reachable true s) (hd : s.disposed = false) (ho : s.ops ≠ 0) : s.pending ≠ 0 ∨ s.running = true :=
+  (inv_reachable h).live hd ho
 
-theorem run_reachable (fixed : Bool) (s s' : St) (es : List Ev) (hs : Reachable fixed s) (h : run fixed s es = some s') : Reachable fixed s' := by
+/-- **an idle stream's source is suspended** (what the teardown relies on) -/
+theorem idle_source_suspended {s : St} (h : Reachable true s) (hd : s.disposed = false) (ho : s.ops = 0) : s.running = false ∧ s.susp = 1 := by
+  have hr := (inv_reachable h).idle hd ho
+  have := (inv_reachable h).susp hd
+  rw [hr] at this
+  exact ⟨hr, this⟩
+
+theorem run_reachable (f : St → Ev → Option St) (s s' : St) (es : List Ev) (hs : ReachableG f s) (h : runG f s es = some s') : ReachableG f s' := by
   induction es generalizing s with
-  | nil => simp only [run] at h; cases h; exact hs
+  | nil => simp only [runG] at h; cases h; exact hs
   | cons e es ih =>
-    simp only [run] at h
-    cases hst : step fixed s e with
+    simp only [runG] at h
+    cases hst : f s e with
     | none => rw [hst] at h; cases h
     | some s1 => rw [hst] at h; exact ih s1 (.step e hs hst) h
 
@@ -198,24 +267,33 @@ theorem run_reachable (fixed : Bool) (s s' : St) (es : List Ev) (hs : Reachable 
     handler request; A is stopped (its queued read is removed), a read of B arrives on the empty list - another request; both
     requests meet an empty pipe: the second `dispatch_resume` traps. -/
 def f32 : List Ev := [.enqueue, .passWait, .enqueue, .fire, .passComplete, .cleanup 1, .enqueue, .enqueue, .passWait, .passWait]
-
 def f32End : St := ((run false {} f32).getD {})
 
 theorem F32_as_found : ∃ s, Reachable false s ∧ s.trapped = true :=
-  ⟨f32End, run_reachable false {} _ f32 .init (by decide : run false {} f32 = some f32End), by decide⟩
+  ⟨f32End, run_reachable _ {} _ f32 .init (by decide : runG (step false) {} f32 = some f32End), by decide⟩
 
 theorem F32_fixed : (run true {} f32).map (·.trapped) = some false := by decide
 
 /-- F33 as found: a read of A waits, two reads of B are queued behind it, the source fires, A is stopped while the handler holds
     A's read, which fails: B's reads stay on the list with no request queued and the source suspended. -/
 def f33 : List Ev := [.enqueue, .passWait, .enqueue, .enqueue, .fire, .passErr 0]
-
 def f33End : St := ((run false {} f33).getD {})
 
 theorem F33_as_found : ∃ s, Reachable false s ∧ s.ops = 2 ∧ s.pending = 0 ∧ s.running = false :=
-  ⟨f33End, run_reachable false {} _ f33 .init (by decide : run false {} f33 = some f33End), by decide⟩
+  ⟨f33End, run_reachable _ {} _ f33 .init (by decide : runG (step false) {} f33 = some f33End), by decide⟩
 
 theorem F33_fixed : (run true {} f33).map (fun s => (s.ops, s.pending)) = some (2, 1) := by decide
+
+/-- F35 with the first two repairs in place: two handler requests are queued (as in F32); the first meets an empty pipe and arms the
+    source, data arrives, the second request reads it and completes the last operation - the list is empty with the source still
+    armed; the teardown's `dispatch_resume` traps. -/
+def f35 : List Ev := [.enqueue, .enqueue, .passComplete, .cleanup 1, .enqueue, .passWait, .passComplete, .dispose]
+def f35End : St := ((runG step35 {} f35).getD {})
+
+theorem F35_as_found : ∃ s, ReachableG step35 s ∧ s.trapped = true :=
+  ⟨f35End, run_reachable _ {} _ f35 .init (by decide : runG step35 {} f35 = some f35End), by decide⟩
+
+theorem F35_fixed : (run true {} f35).map (·.trapped) = some false := by decide
 
 /-! ### what a recorded run shows of the source: its suspensions and resumptions -/
 /-- replay of the source's recorded transitions (`true` = resume / arm, `false` = suspend): they alternate, beginning with an arm -/
@@ -228,6 +306,8 @@ end StreamP
 section audit
 #print axioms StreamP.source_consistent
 #print axioms StreamP.no_stranded_operation
+#print axioms StreamP.idle_source_suspended
 #print axioms StreamP.F32_as_found
 #print axioms StreamP.F33_as_found
+#print axioms StreamP.F35_as_found
 end audit
